@@ -294,7 +294,8 @@ def run(ctx):
                                 ev_.args and ev_.args[0][0] == "ptr" and ev_.args[0][1] == ("L", 0, li_[0])]
 
                     def decided(path, ev_):
-                        return [c_[1] for c_ in path.conds if c_[0] == ("discr", ev_.ret) and isinstance(c_[1], int)]
+                        # what the path's decisions leave of `is the pulled row there?` (however it was tested)
+                        return sorted(discr_poss(path.conds, ev_.ret))
                     okl = len(li_) == 1
                     for q in ps_plain:
                         if (0, hdr_) not in q.pre_loop:
